@@ -52,9 +52,13 @@ def cuts(n, maxcuts=2):
 for n, classes in ((3, 2), (4, 2), (4, 3), (5, 2)):
     for lab in rgs(n, classes):
         # n=5: one split per job (the obligations of all splits in one solver query time out)
-        for split in (cuts(n) if n == 5 else (-1,)):
+        if n == 5:
             for vs in (0, 3):
-                quick.append(job("c15.gnb", secs=60, allow=GA, n=n, d=1, classes=classes, pattern=pat(lab, classes), vs=vs, ob=0, split=split))
+                quick.append(job("c15.gnb", secs=90, qto=30000, allow=GA, n=n, d=1, classes=classes, pattern=pat(lab, classes), vs=vs, ob=0, part=1, B=8))
+        for split in (cuts(n) if n == 5 else (-1,)):
+            part = 2 if n == 5 else 0
+            for vs in (0, 3):
+                quick.append(job("c15.gnb", secs=60, allow=GA, n=n, d=1, classes=classes, pattern=pat(lab, classes), vs=vs, ob=0, split=split, part=part))
             quick.append(job("c15.gnb", secs=60, allow=GA, n=n, d=1, classes=classes, pattern=pat(lab, classes), vs=0, ob=1, split=split))
         if n == 4 and classes == 2:
             findings.append(job("c15.gnb", secs=60, allow=GA, n=n, d=1, classes=classes, pattern=pat(lab, classes), vs=3, ob=1))
@@ -73,11 +77,11 @@ for n, classes, d in ((3, 2, 2), (4, 2, 2), (4, 3, 2), (5, 2, 3)):
 # ---- predictions maximise the posterior of the (checked) statistics; Gaussian: ln/division make the branch
 #      flips of the arg-max undecidable for the solver in general -> explored as far as the solver gets
 for lab in ([0, 1, 0], [0, 0, 1], [0, 1, 1]):
-    quick.append(job("c15.nb_predict", secs=40, n=3, d=1, classes=2, pattern=pat(lab, 2), kind=0, q=1))
+    quick.append(job("c15.nb_predict", secs=40, allow=("inexact",), n=3, d=1, classes=2, pattern=pat(lab, 2), kind=0, q=1))
     quick.append(job("c15.nb_predict", secs=40, n=3, d=2, classes=2, pattern=pat(lab, 2), kind=2, q=1))
     quick.append(job("c15.nb_predict", secs=40, n=3, d=2, classes=2, pattern=pat(lab, 2), kind=3, q=1, cut=1))
     quick.append(job("c15.nb_predict", secs=40, n=3, d=2, classes=2, pattern=pat(lab, 2), kind=3, q=1, cut=2))
-quick.append(job("c15.nb_predict", secs=40, n=4, d=1, classes=2, pattern=pat([0, 1, 0, 1], 2), kind=1, q=1, cut=2))
+quick.append(job("c15.nb_predict", secs=40, allow=("inexact",), n=4, d=1, classes=2, pattern=pat([0, 1, 0, 1], 2), kind=1, q=1, cut=2))
 findings.append(job("c15.nb_predict", secs=40, n=3, d=1, classes=2, pattern=pat([1, 0, 0], 2), kind=1, ob=1, cut=1))
 
 # ---- mini-batch k-means
@@ -108,13 +112,13 @@ for lab in rgs(5, 3):
         thorough.append(job("c15.gnb", secs=300, allow=GA, n=5, d=1, classes=3, pattern=pat(lab, 3), vs=vs, ob=0, maxcuts=4))
     thorough.append(job("c15.gnb", secs=300, allow=GA, n=5, d=1, classes=3, pattern=pat(lab, 3), vs=0, ob=1, maxcuts=4))
     thorough.append(job("c15.mnb", secs=120, n=5, d=3, classes=3, pattern=pat(lab, 3), a=1, maxcuts=4))
-for lab in rgs(4, 2):
+for lab in ([0, 1, 0, 1], [0, 0, 1, 1]):   # quadratic variance comparisons: flips mostly undecided, bug hunting only
     for split in (1, 2, 4, 3, 5, 6):
         thorough.append(job("c15.gnb", secs=300, allow=GA, n=4, d=2, classes=2, pattern=pat(lab, 2), vs=3, ob=0, split=split, B=8))
 thorough.append(job("c15.mbk", secs=900, jobs=8, nb=3, bs=2, k=2, d=1, metric=1))
 thorough.append(job("c15.mbk", secs=900, jobs=8, nb=2, bs=2, k=2, d=2, metric=3))
 thorough.append(job("c15.mbk", secs=900, jobs=8, nb=3, bs=3, k=2, d=1, metric=3))
-thorough.append(job("c15.mbk", secs=900, jobs=8, nb=2, bs=3, k=3, d=1, metric=3))
+thorough.append(job("c15.mbk", secs=1500, jobs=16, nb=2, bs=3, k=3, d=1, metric=3))
 thorough.append(job("c15.mbk", secs=600, jobs=4, nb=2, bs=2, k=2, d=1, metric=4))
 for labels, probs in ((1, 1), (0, 2)):
     thorough.append(job("c15.ftrl", secs=600, n=1, d=1, mode=0, labels=labels, probs=probs, steps=2, after=1))
